@@ -83,9 +83,58 @@ class Lib:
         for n in ("ColumnValue", "ObjectID", "ObjectValue", "RowID", "RowNum", "SysDate"):
             self.CONSTS["pseudo." + n] = getattr(pseudocolumns, n)
 
+        # fixed panel of probe objects for == / != observations; built eagerly so that no library code
+        # runs lazily inside a simulated operation (that would make the first run of a process differ)
+        T = queries.Table
+        self.PANEL = [
+            ("Ta", T("a")), ("Ta_a1", T("a", alias="a1")), ("Tb", T("b")), ("Ts.a", T("a", schema="s")),
+            ("Qa", queries.Query.from_(T("a")).select("x")),
+            ("Qa_sq", queries.Query.from_(T("a")).select("x").as_("sq0")),
+            ("AQ", queries.AliasedQuery("cte1")),
+            ("S", queries.Schema("s")),
+            ("None", None),
+        ]
+
     # ---- reflection -------------------------------------------------------------------
+    def pinned_census(self) -> dict:
+        """Builder-method census recorded from the baseline tree (selftest/census.json).  A method listed there
+        is still driven as a builder even if a later change removes its decorator, so such a change cannot make
+        the method escape the workload."""
+        if getattr(self, "_pinned", None) is None:
+            import json
+            path = os.path.join(os.path.dirname(os.path.dirname(os.path.abspath(__file__))), "selftest", "census.json")
+            try:
+                self._pinned = json.load(open(path, encoding="utf-8"))
+            except OSError:
+                self._pinned = {}
+        return self._pinned
+
     def builder_methods(self, cls) -> list[str]:
-        """Names of builder-decorated methods visible on cls (MRO order, stable)."""
+        """Names of builder methods visible on cls: reflective (decorated now) plus pinned (decorated at baseline)."""
+        key = ("bm", cls)
+        cache = self.__dict__.setdefault("_bm_cache", {})
+        if key in cache:
+            return cache[key]
+        out = self._reflective_builder_methods(cls)
+        pinned = self.pinned_census()
+        for k in cls.__mro__:
+            for n in pinned.get(k.__module__ + "." + k.__qualname__, []):
+                if n not in out and callable(getattr(cls, n, None)):
+                    out.append(n)
+        cache[key] = out
+        return out
+
+    def lost_decorators(self) -> list[str]:
+        """Pinned builder methods that exist but are not builder-decorated any more."""
+        now = self.census()
+        out = []
+        for c, ms in self.pinned_census().items():
+            for m in ms:
+                if m not in now.get(c, []):
+                    out.append(c.rsplit(".", 1)[-1] + "." + m)
+        return sorted(out)
+
+    def _reflective_builder_methods(self, cls) -> list[str]:
         out = []
         seen = set()
         for k in cls.__mro__:
